@@ -1027,6 +1027,50 @@ def r9(ctx):
              key='ejection-step-model', witness=wit, what='MoleculeIterator.__iter__: the ejection step emits a molecule that cannot be yielded yet / loses or duplicates one')
 
 
+def _buffer_resets(ctx, stmts, depth=0):
+    """`self.<attr>` names that the statements re-bind to an empty container (directly, under a test of the pooling method, or in a helper method called on self)"""
+    out = set()
+    for st in stmts:
+        if isinstance(st, ast.Assign) and len(st.targets) == 1 and isinstance(st.targets[0], ast.Attribute) and src(st.targets[0].value) == 'self':
+            v = st.value
+            empty = (isinstance(v, (ast.List, ast.Dict, ast.Set, ast.Tuple)) and not (getattr(v, 'elts', None) or getattr(v, 'keys', None))) or \
+                (isinstance(v, ast.Call) and last_name(dotted(v.func) or '') in ('list', 'dict', 'set', 'defaultdict', 'OrderedDict', 'deque') and
+                 not any(not (isinstance(a, (ast.Name, ast.Attribute, ast.Lambda))) for a in v.args))
+            if empty:
+                out.add(st.targets[0].attr)
+        elif isinstance(st, ast.Expr) and isinstance(st.value, ast.Call) and isinstance(st.value.func, ast.Attribute):
+            c = st.value
+            if c.func.attr == 'clear' and isinstance(c.func.value, ast.Attribute) and src(c.func.value.value) == 'self':
+                out.add(c.func.value.attr)
+            elif src(c.func.value) == 'self' and depth < 2:
+                try:
+                    g = ctx.fn(MOLITER, f'MoleculeIterator.{c.func.attr}')
+                except AnalysisError:
+                    continue
+                out |= _buffer_resets(ctx, g.body, depth + 1)
+        elif isinstance(st, ast.If) and 'pooling_method' in src(st.test):
+            out |= _buffer_resets(ctx, st.body, depth) | _buffer_resets(ctx, st.orelse, depth)
+    return out
+
+
+@rule('C07', 'C07-R10', 'every pass over the iterator starts from empty buffers: before the read loop __iter__ re-binds (or clears) the molecule buffer of either pooling method - '
+                        'molecules left behind by a pass that was abandoned half way would otherwise be joined by, and emitted with, the fragments of the next pass')
+def r10(ctx):
+    f = ctx.fn(MOLITER, FN)
+    loop = _main_loop(f)
+    pre = f.body[:f.body.index(loop)]
+    got = _buffer_resets(ctx, pre)
+    # the buffers the read loop works on
+    used = {x.attr for x in ast.walk(loop) if isinstance(x, ast.Attribute) and src(x.value) == 'self' and x.attr.startswith('molecules')}
+    ctx.need('C07-R10', len(used), 2, 'molecule buffers used by the read loop')
+    for b in sorted(used):
+        ok = b in got
+        ctx.emit('C07-R10', ok, MOLITER, f, f'self.{b} is emptied before the read loop starts' if ok else
+                 f'self.{b} is not emptied when a pass starts: after `for m in it: break` the molecules buffered so far are still there, the next `for m in it` adds the same fragments to them again',
+                 key=f'pass-starts-empty:{b}', witness={'history': ['iterate, stop after the first molecule', 'iterate again'], 'buffer at the start of pass 2': 'molecules of pass 1'} if not ok else None,
+                 what='MoleculeIterator.__iter__ does not reset its buffers')
+
+
 META = {
     'text': ('Decides, for every path of MoleculeIterator.__iter__: the ejection loops remove exactly the molecules they '
              'selected (index compensation is the linear form j - i over enumerate positions of the same container, in '
